@@ -3,7 +3,11 @@
 (* The pending-input queue of the consensus component (property C16a):      *)
 (* sync::prunable_mpsc (prunable_mpsc/mod.rs:82-101) instantiated with the  *)
 (* BFT filter and selection function (bft/src/lib.rs:141-162).              *)
-(* A message is [s: sender, k: kind, v: view, ok: signature valid].         *)
+(* A message is [s: sender, k: kind, v: view, ok: signature valid,           *)
+(* c: content variant]. `c` stands for everything in a validly signed       *)
+(* message that the SENDER chooses and that must not matter for pruning:    *)
+(* 0 = the chain's genesis and block, 1 = another genesis hash,             *)
+(* 2 = another block. A slot is (sender, kind) - nothing else.              *)
 (***************************************************************************)
 EXTENDS Naturals, Sequences, FiniteSets
 
@@ -20,7 +24,7 @@ Send(m) ==
     /\ hist' = Append(hist, [op |-> "send", m |-> m, res |-> "-"])
 
 Recv ==
-    /\ IF q = <<>> THEN q' = q /\ hist' = Append(hist, [op |-> "recv", m |-> [s |-> 0, k |-> "-", v |-> 0, ok |-> TRUE], res |-> "empty"])
+    /\ IF q = <<>> THEN q' = q /\ hist' = Append(hist, [op |-> "recv", m |-> [s |-> 0, k |-> "-", v |-> 0, ok |-> TRUE, c |-> 0], res |-> "empty"])
        ELSE q' = Tail(q) /\ hist' = Append(hist, [op |-> "recv", m |-> Head(q), res |-> "msg"])
 
 (* Properties *)
